@@ -123,7 +123,7 @@ def _flat(x):
     return [complex(z) for z in np.ravel(np.asarray(x))]
 
 
-def run_queries(state, queries, n, hbar, cutoff=5):
+def run_queries(state, queries, n, hbar, cutoff=5, V=None):
     """-> list of (name, kind, values | exception type name); kind: 'dimless' | 'sqrt' | 'lin' | 'lin_sq' (how the values scale with hbar)"""
     res = []
     for q in queries:
@@ -149,6 +149,9 @@ def run_queries(state, queries, n, hbar, cutoff=5):
                 v = state.displacement(list(q[1]))
             elif nm == "squeezing":
                 v = state.squeezing(list(q[1]))
+                # anisotropy of each mode's covariance (from the moments read before the queries): phi is rounding noise for an
+                # isotropic (vacuum, thermal) mode whatever "r" the pure-state formula returns
+                v = [(r_, p_, (np.hypot(V[m_ + n, m_ + n] - V[m_, m_], 2 * V[m_, m_ + n]) / (hbar / 2)) if V is not None else 1.0) for (r_, p_), m_ in zip(v, q[1])]
                 kind = "squeezing"
             else:
                 A = np.zeros((2 * n, 2 * n))
@@ -187,11 +190,11 @@ def compare_queries(r1, r2, h1, h2, tol):
             b = b / np.array([h2, h2 ** 2])
         elif kind == "squeezing":
             # (r, phi) per mode: phi is undefined for r = 0, and r = arccosh(..)/2 amplifies rounding near 0
-            a2, b2 = a.reshape(-1, 2), b.reshape(-1, 2)
+            a2, b2 = a.reshape(-1, 3), b.reshape(-1, 3)
             if float(np.max(np.abs(a2[:, 0] - b2[:, 0]))) > 1e-5:
                 return nm, "squeezing r: %s at hbar=%g, %s at hbar=%g" % (a2[:, 0].real, h1, b2[:, 0].real, h2)
-            for (ra, pa), (rb, pb) in zip(a2, b2):
-                if abs(ra) > 1e-3 and abs(np.exp(1j * pa) - np.exp(1j * pb)) > 1e-4:
+            for (ra, pa, ana), (rb, pb, anb) in zip(a2, b2):
+                if min(abs(ana), abs(anb)) > 1e-3 and abs(np.exp(1j * pa) - np.exp(1j * pb)) > 1e-4:
                     return nm, "squeezing phi: %s at hbar=%g, %s at hbar=%g" % (pa.real, h1, pb.real, h2)
             continue
         both_nan = np.isnan(a) & np.isnan(b)
@@ -287,7 +290,7 @@ def check_ps(ctx, case):
             # a generated sequence of further state-method calls, the same on both states; afterwards the moments are read again
             # (a query must not change what later queries answer)
             qs = case.get("queries") or []
-            r1q, r2q = run_queries(s1, qs, n, h1), run_queries(s2, qs, n, h2)
+            r1q, r2q = run_queries(s1, qs, n, h1, V=V1), run_queries(s2, qs, n, h2, V=V2)
             labels += sorted({"api:" + q[0] for q in qs})
             bad = compare_queries(r1q, r2q, h1, h2, tol)
             if bad:
